@@ -52,6 +52,7 @@ def run(chk: Check) -> None:
     run_planned_internal_errors(chk, ix)
     run_saved_indexes(chk, ix)
     run_set_pop_guarded(chk, ix)
+    run_blocker_rollback(chk, ix)
 
     r1 = chk.rule("R20.1", "every loop that re-queues deferred work has a per-iteration counter compared with a constant bound that exits the loop; type-checker deferral is limited by pass_num < last_pass", floor=7)
     n_loops = 0
@@ -540,3 +541,47 @@ def run_set_pop_guarded(chk: Check, ix) -> None:
                 r8.violation(key, f.loc(c), f"nothing on the way to `{recv}.pop()` establishes that `{recv}` is non-empty")
     if n < 3:
         raise AnalysisError(f"only {n} set.pop() sites found")
+
+
+def run_blocker_rollback(chk: Check, ix) -> None:
+    """R20.9: after a blocker the daemon forgets every module the failed load had added."""
+    r9 = chk.rule("R20.9", "update_module_isolated lets load_graph add the new modules of an edit to the graph and collects them in a list it passes in; when load_graph raises CompileError (a syntax error in one of them) every handler that returns the blocked result first restores the updated module *and every module of that list*: a well-formed sibling left half-loaded in the graph is never analysed, later requests answer from its empty symbol table or fail an assertion in State.load_tree (Daemon crashed!)", floor=2)
+    f = ix.func("mypy.server.update.update_module_isolated")
+    lg = [c for c in ast.walk(f.node) if isinstance(c, ast.Call) and call_name(c) == "load_graph"]
+    if not lg:
+        raise AnalysisError("update_module_isolated: load_graph call not found")
+    par = f.module.parents()
+    n = 0
+    for c in lg:
+        # the list that collects the new states: 4th positional or new_modules=
+        coll = None
+        if len(c.args) >= 4 and isinstance(c.args[3], ast.Name):
+            coll = c.args[3].id
+        for k in c.keywords:
+            if k.arg == "new_modules" and isinstance(k.value, ast.Name):
+                coll = k.value.id
+        tr = c
+        while tr is not None and not isinstance(tr, ast.Try):
+            tr = par.get(tr)
+        if coll is None or tr is None:
+            continue
+        for h in tr.handlers:
+            if h.type is None or "CompileError" not in norm(h.type):
+                continue
+            n += 1
+            rs = [x for x in ast.walk(h) if isinstance(x, ast.Call) and call_name(x) == "restore"]
+            key = f"the CompileError handler around load_graph restores every module collected in `{coll}`"
+            if rs and any(isinstance(nm, ast.Name) and nm.id == coll for r in rs for a in r.args for nm in ast.walk(a)):
+                r9.ok(key, f.loc(rs[0]), norm(rs[0])[:80])
+            else:
+                r9.violation(key, f.loc(h), f"the handler returns the blocked result after `{norm(rs[0])[:70] if rs else 'no restore() call'}`: modules that load_graph had already added (`{coll}`) stay in the graph and in manager.modules without having been processed")
+    rf = [x for x in ast.walk(f.node) if isinstance(x, ast.FunctionDef) and x.name == "restore"]
+    key = "restore() removes a module from both manager.modules and the graph"
+    if rf and any(isinstance(d, ast.Delete) and "manager.modules" in norm(d.targets[0]) for d in ast.walk(rf[0])) and any(isinstance(d, ast.Delete) and norm(d.targets[0]).startswith("graph[") for d in ast.walk(rf[0])):
+        n += 1
+        r9.ok(key, f.loc(rf[0]))
+    elif rf:
+        n += 1
+        r9.violation(key, f.loc(rf[0]), "restore() no longer deletes the module from both tables")
+    if n < 2:
+        raise AnalysisError(f"update_module_isolated: only {n} roll-back obligations found")
